@@ -130,6 +130,13 @@ def run(tier: str) -> int:
                         break
                     # the outermost object decides the context: render through the OUTER dialect's class
                     text = render(obj, Q, param)
+                    if mode == "native" and not param:
+                        # the statement's own default context is the same dialect: str() / get_sql() must agree with the explicit context
+                        dflt = str(obj) if hasattr(type(obj), "__str__") and type(obj).__str__ is not object.__str__ else text
+                        if dflt != text:
+                            rep.discrepancy([[d, "default-context-differs", p["elem"], p["nest"][-1]]],
+                                            {"dialect": d, "program": p, "explicit_context": text, "default_context": dflt},
+                                            what="str() and get_sql(<the dialect's own context>) render differently")
                 except Exception as ex:  # noqa
                     rep.discrepancy([[p["elem"], "/".join(p["nest"]), "raises:" + type(ex).__name__, d, mode]], {"program": p, "dialect": d, "mode": mode},
                                     what="building or rendering raises")
@@ -142,7 +149,7 @@ def run(tier: str) -> int:
                 break
         if not ok or not rs:
             continue
-        events.append({"tid": len(events), "r": [{k: v for k, v in x.items() if k != "_sql"} for x in rs], "boolmark": BOOLMARK,
+        events.append({"tid": len(events), "r": [{k: v for k, v in x.items() if k != "_sql"} for x in rs], "boolmark": BOOLMARK, "aliases": ["gal", "al one"],
                        "neutral": p["elem"] in NEUTRAL and not any(c.startswith("setop") for c in p["nest"])})
         meta.append((p, rs))
     results = tlc.judge_shards("J_C08", "INIT Init\nNEXT Next\n", events, shard=max(40, len(events) // 16 + 1), heap="3g", timeout=3000)
